@@ -26,6 +26,8 @@ var envVals = map[string]string{
 	// a value that contains its own placeholder: it is a value like any other
 	// and is inserted as it is
 	"VERIF_C10_S": "self-{$VERIF_C10_S}-ref",
+	// a value with a line break in it
+	"VERIF_C10_N": "nl1\nnl2",
 	// VERIF_C10_U is never set
 }
 
@@ -256,7 +258,7 @@ func (g *gen) argTok() tok {
 		return g.write("{ brace } { " + r.Pick(words))
 	case 6:
 		g.feats["env"] = true
-		return g.write(r.Pick([]string{"{$VERIF_C10_A}", "{%VERIF_C10_A%}", "{$VERIF_C10_B}", "{$VERIF_C10_C}", "{$VERIF_C10_E}", "{$VERIF_C10_U}", "{$VERIF_C10_S}"}))
+		return g.write(r.Pick([]string{"{$VERIF_C10_A}", "{%VERIF_C10_A%}", "{$VERIF_C10_B}", "{$VERIF_C10_C}", "{$VERIF_C10_E}", "{$VERIF_C10_U}", "{$VERIF_C10_S}", "{$VERIF_C10_N}"}))
 	case 7:
 		g.feats["env"] = true
 		if r.Intn(2) == 0 {
